@@ -362,6 +362,76 @@ fn ratio_props(rng: &mut Rng, k: usize, ratio_x100: usize) -> Properties {
   p
 }
 
+/// CBOR head with an explicit 32- or 64-bit argument
+fn big_head(major: u8, n: u64) -> Vec<u8> {
+  let mut v = Vec::new();
+  if n <= u64::from(u32::MAX) {
+    v.push((major << 5) | 26);
+    v.extend_from_slice(&(n as u32).to_be_bytes());
+  } else {
+    v.push((major << 5) | 27);
+    v.extend_from_slice(&n.to_be_bytes());
+  }
+  v
+}
+
+pub const OVER_LENGTHS: [u64; 5] = [1 << 16, u32::MAX as u64, 1 << 32, 1 << 63, u64::MAX];
+
+/// Properties fields in which some container or string DECLARES a length far larger than the
+/// remaining input: every container the properties decoder reads (top-level map, gallery array,
+/// item map, attributes maps, traits maps), every string (title, trait name, trait string value,
+/// inscription id, txids), inline and packed shapes, with a valid prefix before the over-declared
+/// part and few or no elements after it.
+pub fn overdeclared() -> Vec<Vec<u8>> {
+  let id: Vec<u8> = {
+    let mut v = vec![0x58, 32];
+    v.extend_from_slice(&[7u8; 32]);
+    v
+  };
+  let mut out = Vec::new();
+  for &n in &OVER_LENGTHS {
+    let cat = |parts: &[&[u8]]| parts.concat();
+    let m = big_head(5, n);
+    let a = big_head(4, n);
+    let t = big_head(3, n);
+    let b = big_head(2, n);
+    // containers
+    out.push(cat(&[&m]));                                                            // top-level map
+    out.push(cat(&[&m, &[0x01, 0xa1, 0x00, 0x61, 0x78]]));                             // ... with one entry
+    out.push(cat(&[&[0xa1, 0x00], &a]));                                               // gallery array
+    out.push(cat(&[&[0xa1, 0x00], &a, &[0xa0]]));                                      // ... one item
+    out.push(cat(&[&[0xa1, 0x00, 0x81], &m]));                                         // item map
+    out.push(cat(&[&[0xa1, 0x00, 0x81], &m, &[0x00], &id]));                           // ... with its id
+    out.push(cat(&[&[0xa1, 0x00, 0x81, 0xa2, 0x00], &id, &[0x01], &m]));               // item attributes map
+    out.push(cat(&[&[0xa1, 0x00, 0x81, 0xa2, 0x00], &id, &[0x01, 0xa1, 0x01], &m]));   // item traits map
+    out.push(cat(&[&[0xa1, 0x00, 0x81, 0xa2, 0x00], &id, &[0x01, 0xa2, 0x00, 0x61, 0x74, 0x01], &m, &[0x61, 0x61, 0xf5]]));
+    out.push(cat(&[&[0xa1, 0x01], &m]));                                               // attributes map
+    out.push(cat(&[&[0xa1, 0x01, 0xa1, 0x01], &m]));                                   // traits map, nothing after
+    out.push(cat(&[&[0xa1, 0x01, 0xa1, 0x01], &m, &[0x61, 0x61, 0xf5]]));              // traits map, one entry
+    out.push(cat(&[&[0xa1, 0x01, 0xa2, 0x00, 0x63, 0x66, 0x6f, 0x6f, 0x01], &m]));     // valid title, then traits
+    out.push(cat(&[&[0xa1, 0x01, 0xa2, 0x00, 0x63, 0x66, 0x6f, 0x6f, 0x01], &m, &[0x61, 0x61, 0xf5, 0x61, 0x62, 0x01]]));
+    out.push(cat(&[&[0xa2, 0x00, 0x81, 0xa1, 0x00], &id, &[0x01, 0xa2, 0x00, 0x63, 0x66, 0x6f, 0x6f, 0x01], &m])); // gallery + attrs + traits
+    // packed shapes: items without ids, txids at the end
+    out.push(cat(&[&[0xa2, 0x00, 0x81, 0xa1, 0x01, 0xa1, 0x01], &m, &[0x02], &id]));
+    out.push(cat(&[&[0xa3, 0x00, 0x81, 0xa1, 0x02, 0x05, 0x01, 0xa1, 0x01], &m, &[0x02], &id]));
+    out.push(cat(&[&[0xa2, 0x00, 0x81, 0xa0, 0x02], &b, &[1, 2, 3]]));                 // txids string
+    // strings
+    out.push(cat(&[&[0xa1, 0x01, 0xa1, 0x00], &t, &[0x61]]));                          // title
+    out.push(cat(&[&[0xa1, 0x01, 0xa1, 0x01, 0xa1], &t, &[0x61]]));                    // trait name
+    out.push(cat(&[&[0xa1, 0x01, 0xa1, 0x01, 0xa1, 0x61, 0x61], &t]));                 // trait string value
+    out.push(cat(&[&[0xa1, 0x00, 0x81, 0xa1, 0x00], &b, &[7; 40]]));                   // inscription id
+    out.push(cat(&[&[0xa1, 0x02], &b]));                                               // txids
+  }
+  out
+}
+
+/// op 7 line: 7 as_brotli bytes..  (decoded in a child process: an allocation failure aborts)
+fn over_case(as_brotli: bool, b: &[u8]) -> Line {
+  let mut l = L::new().p(7u8).p(as_brotli);
+  l.raw(b);
+  l.done()
+}
+
 fn candidates(p: &Properties) -> Vec<Vec<u8>> {
   let mut v = Vec::new();
   if let Some(inline) = ord::verif::envelope::properties_to_inline_cbor(p) {
@@ -532,6 +602,11 @@ pub fn gen(rng: &mut Rng, tier: &str) -> Vec<Line> {
     let mut l = L::new().p(6u8);
     put_props_in(&mut l, &p);
     v.push(l.done());
+  }
+  // ---- op 7: declared lengths far beyond the input, every container and string; plain and inside brotli
+  for b in overdeclared() {
+    v.push(over_case(false, &b));
+    v.push(over_case(true, &brotli_compress(&b)));
   }
   // ---- op 4: arbitrary / malformed bytes
   let n4 = if thorough { 200_000 } else { 5_000 };
@@ -743,7 +818,39 @@ pub fn run(case: &Line) -> Outcome {
         Outcome { obs: L::new().p(0u8).done(), oracle, cat }
       })
     }
-    4 => {
+    7 if std::env::var_os("HX_CHILD").is_none() => {
+      // the same case as op 4, run in a child process so that an aborting allocation failure
+      // (not a panic: cannot be caught) is observed as a failure of this case
+      let mut line = case.clone();
+      line[0] = Z::from(4u8);
+      let dir = std::env::temp_dir().join(format!("hx-envelope-child-{}-{:x}", std::process::id(), {
+        let mut h = 0xcbf29ce484222325u64;
+        for z in case.iter() {
+          h = (h ^ z.mag as u64).wrapping_mul(0x100000001b3);
+        }
+        h
+      }));
+      std::fs::create_dir_all(&dir).unwrap();
+      let file = dir.join("case.txt");
+      std::fs::write(&file, fmt_line(&line) + "\n").unwrap();
+      let status = std::process::Command::new(std::env::current_exe().unwrap())
+        .args(["C28", "replay", file.to_str().unwrap(), dir.join("out").to_str().unwrap()])
+        .env("HX_CHILD", "1")
+        .stdout(std::process::Stdio::null())
+        .stderr(std::process::Stdio::null())
+        .status();
+      let verdict = std::fs::read_to_string(dir.join("out").join("oracle.txt")).unwrap_or_default();
+      let _ = std::fs::remove_dir_all(&dir);
+      let oracle = match status {
+        Ok(st) if st.success() && verdict.trim() == "ok" => Ok(()),
+        Ok(st) if st.success() => Err(format!("over-declared length: {}", verdict.trim())),
+        Ok(st) => Err(format!("decoding aborted the process ({st}): declared length used for an allocation")),
+        Err(e) => Err(format!("could not run the child process: {e}")),
+      };
+      let cat = if oracle.is_ok() { "overdeclared/ok" } else { "overdeclared/failed" };
+      Outcome { obs: L::new().p(0u8).done(), oracle, cat: cat.into() }
+    }
+    4 | 7 => {
       let as_brotli = c.bool();
       let b = c.rest_bytes();
       guarded("malformed", || {
